@@ -180,33 +180,34 @@ Definition oshape := list (N * N).
 
 Definition lookup (T : table) (i : N) : option node := find (fun n => n_id n =? i) T.
 
-(* can node i produce the chain sh?  fuel bounds the pass-through steps between two chain elements.
-   Non-structured chain elements carry 0 in the code position. *)
-Fixpoint inhab (T : table) (fuel : nat) (i : N) : bool :=
+(* nodes that can evaluate to some error value: least fixed point, computed by iteration *)
+Definition inh_step (T : table) (S : list N) : list node :=
+  filter (fun n => negb (mem (n_id n) S) &&
+                   match n_kind n with
+                   | KLeaf | KCtx | KBare | KUnknown => true
+                   | KFun | KWrapw | KCause => existsb (fun m => mem m S) (n_inner n)
+                   | KRewrapv => existsb (fun m => mem m S) (n_dropped n)
+                   end) T.
+Fixpoint inh_close (T : table) (fuel : nat) (S : list N) : list N :=
   match fuel with
-  | O => false
-  | S f =>
-      match lookup T i with
-      | None => false
-      | Some n =>
-          match n_kind n with
-          | KLeaf | KCtx | KBare | KUnknown => true
-          | KFun | KWrapw | KCause => existsb (inhab T f) (n_inner n)
-          | KRewrapv => existsb (inhab T f) (n_dropped n)
-          end
-      end
+  | O => S
+  | Datatypes.S f => match inh_step T S with
+                     | [] => S
+                     | new => inh_close T f (map n_id new ++ S)
+                     end
   end.
+Definition inhab_set (T : table) : list N := inh_close T (length T) [].
 
 (* Which nodes can produce the chain sh?  Computed from the end of the chain: the nodes matching the last
    element, then for each earlier element the wrapping sites over a node of the previous set, each time closed
    under pass-through (function results).  Non-structured chain elements carry 0 in the code position. *)
-Definition term_match (T : table) (n : node) (k c : N) : bool :=
+Definition term_match (I : list N) (n : node) (k c : N) : bool :=
   match n_kind n with
   | KLeaf => (k =? 0) && (c =? n_code n)
   | KCtx => (k =? 2) && (c =? 0)
   | KBare | KUnknown => (k =? 3) && (c =? 0)
   | KRewrapv => (if n_code n =? 0 then (k =? 3) && (c =? 0) else (k =? 0) && (c =? n_code n))
-                && existsb (inhab T (length T)) (n_dropped n)
+                && existsb (fun m => mem m I) (n_dropped n)
   | _ => false
   end.
 Definition wrap_match (n : node) (k c : N) : bool :=
@@ -226,21 +227,21 @@ Fixpoint close (T : table) (fuel : nat) (S : list N) : list N :=
                      | new => close T f (map n_id new ++ S)
                      end
   end.
-Fixpoint prod_set (T : table) (sh : oshape) : list N :=
+Fixpoint prod_set (T : table) (I : list N) (sh : oshape) : list N :=
   match sh with
   | [] => []
   | (k, c) :: rest =>
       close T (length T)
         (match rest with
-         | [] => map n_id (filter (fun n => term_match T n k c) T)
-         | _ => let S := prod_set T rest in
+         | [] => map n_id (filter (fun n => term_match I n k c) T)
+         | _ => let S := prod_set T I rest in
                 map n_id (filter (fun n => wrap_match n k c && existsb (fun m => mem m S) (n_inner n)) T)
          end)
   end.
-Definition produces (T : table) (i : N) (sh : oshape) : bool := mem i (prod_set T sh).
+Definition produces (T : table) (i : N) (sh : oshape) : bool := mem i (prod_set T (inhab_set T) sh).
 (* one correspondence case: a chain shape and the nodes (entry points) it was observed at *)
 Definition shape_case_ok (T : table) (c : oshape * list N) : bool :=
-  let S := prod_set T (fst c) in forallb (fun i => mem i S) (snd c).
+  let S := prod_set T (inhab_set T) (fst c) in forallb (fun i => mem i S) (snd c).
 
 (* the shape the harness observes for an error value *)
 Fixpoint shape_of (e : err) : oshape :=
